@@ -162,7 +162,22 @@ def extract(repo: Path) -> dict:
                      '            tasks.append(upload.state.abort(reason=abort_reason))\n'
                      '    elif abort_reason:\n'
                      '        upload.abort_reason = abort_reason')
-    if len(loops) != 1 or _src(loops[0]) != expected_loop:
+    # since 8a6456f the re-queue goes through a helper that first checks that the upload is still listed (C06: removed
+    # meanwhile). The C08 model has no `remove`: every upload stays listed, the helper is `upload.state.queue()`.
+    guarded_loop = expected_loop.replace('tasks.append(upload.state.queue())', 'tasks.append(self._requeue_if_listed(upload))')
+    if len(loops) == 1 and _src(loops[0]) == guarded_loop:
+        helper = _func(tm, '_requeue_if_listed')
+        body = [b for b in helper.body
+                if not (isinstance(b, ast.Expr) and isinstance(b.value, ast.Constant) and isinstance(b.value.value, str))]
+        if not (isinstance(helper, ast.AsyncFunctionDef) and [a.arg for a in helper.args.args] == ['self', 'upload']
+                and len(body) == 1 and isinstance(body[0], ast.If) and not body[0].orelse
+                and _src(body[0].test) in ('any((transfer is upload for transfer in self._transfers))',
+                                           'any((transfer is upload for transfer in self.transfers))',
+                                           'upload in self._transfers', 'upload in self.transfers')
+                and [_src(b) for b in body[0].body] == ['await upload.state.queue()']):
+            raise TranslateError('_requeue_if_listed: not `if <upload still listed>: await upload.state.queue()`: '
+                                 + repr(_src(helper)))
+    elif len(loops) != 1 or _src(loops[0]) != expected_loop:
         raise TranslateError('manage_shares_changed: loop over the uploads not understood: '
                              + repr([_src(l) for l in loops]))
 
